@@ -86,7 +86,7 @@ def run(chk, profiles, total_quick=6000, total_thorough=60000, variant="hook", e
     chk.cov["trusted_base"] = TRUSTED
     chk.assumptions += ["scenarios are valid programs: every command evaluates its documented precondition with the public queries and "
                         "is skipped when it does not hold (durations >= 0, release only by the holder, amounts within 1..capacity, signals "
-                        "other than SUCCESS for interrupts/timers/resume, targets started and unfinished, handles issued by that queue)"]
+                        "other than SUCCESS for interrupts/timers/resume, targets started and unfinished, handles issued by that queue; a variable holds one kind of handle: 0-3 timers, 4-7 priority-queue handles, 8-9 user events — VarsOk / CmdValid of the theorems)"]
     tgen_ok = True
     try:
         gen_orders.run(impl)
